@@ -30,12 +30,15 @@ pub struct DerCase {
     /// registration per node (by index)
     pub regs: Vec<Reg>,
     pub compact_as: bool,
+    /// no derive for all types (attributes for all types stay): items may then carry attributes and no derive at all
+    #[serde(default)]
+    pub no_global_derive: bool,
 }
 
 fn spec_of(c: &DerCase) -> SettingsSpec {
     let mut s = SettingsSpec::faithful();
     s.root = "root".into();
-    s.derives_all = vec!["::g::Clone".into()];
+    s.derives_all = if c.no_global_derive { vec![] } else { vec!["::g::Clone".into()] };
     s.attrs_all = vec!["#[g]".into()];
     if !c.compact_as {
         s.compact_as = None;
@@ -346,6 +349,19 @@ pub fn run(tier: &str, seed: u64) -> i32 {
                     graph: s.clone(),
                     regs,
                     compact_as: true,
+                    no_global_derive: false,
+                },
+                ctx,
+            );
+        }
+        // without a derive for all types: an item's derive list may be empty while its attribute list is not
+        for regs in assignments(s.nodes.len(), 1) {
+            check_case(
+                &DerCase {
+                    graph: s.clone(),
+                    regs,
+                    compact_as: true,
+                    no_global_derive: true,
                 },
                 ctx,
             );
@@ -355,6 +371,7 @@ pub fn run(tier: &str, seed: u64) -> i32 {
                 graph: s.clone(),
                 regs: vec![Reg::Nothing; s.nodes.len()],
                 compact_as: false,
+                no_global_derive: false,
             },
             ctx,
         );
